@@ -169,8 +169,24 @@ def run_harness(harness, features, loops=None, timeout=900, mem_gb=14, playback=
             shutil.rmtree(tdir, ignore_errors=True)
 
 
+_modmap = {}
+
+
+def qualified(harness):
+    """`module::name` of a harness (cargo kani --harness matches SUBSTRINGS unless --exact is given, so
+    `recv_att_1s` would also run `recv_att_1s_multi25` and report its failures under the wrong name)"""
+    if not _modmap:
+        for f in glob.glob(os.path.join(CRATE, "src", "h_*.rs")):
+            mod = os.path.basename(f)[:-3]
+            for m in re.finditer(r"\bfn\s+([a-z0-9_]+)\s*\(\s*\)", open(f).read()):
+                _modmap.setdefault(m.group(1), mod)
+    return _modmap[harness] + "::" + harness if harness in _modmap else None
+
+
 def _run(harness, features, loops, timeout, mem_gb, playback, tdir, log, res, t0):
-    base = ["cargo", "kani"] + KFLAGS + ["--features", features, "--target-dir", tdir, "--harness", harness]
+    q = qualified(harness)
+    sel = ["--harness", q, "--exact"] if q else ["--harness", harness]
+    base = ["cargo", "kani"] + KFLAGS + ["--features", features, "--target-dir", tdir] + sel
     cg = subprocess.run(base + ["--only-codegen"], cwd=CRATE, env=env_offline(), capture_output=True, text=True)
     res["stats"]["codegen_s"] = round(time.time() - t0, 1)
     if cg.returncode != 0:
